@@ -610,6 +610,27 @@ def protocol_programs():
         "slogdet_field_logabsdet": lambda xp, a: xp.linalg.slogdet(xp.outer(a, a) + onp.diag([1.0, 2.0, 4.0])).logabsdet,
         "svd_field_S": lambda xp, a: xp.sum(xp.linalg.svd(xp.outer(a, a) + onp.diag([1.0, 2.0, 4.0])).S * onp.array([1.0, 2.0, 3.0])),
         "eig_field_eigenvalues": lambda xp, a: xp.sum(xp.real(xp.linalg.eig(xp.outer(a, a) + onp.diag([1.0, 2.0, 4.0])).eigenvalues)),
+        # a traced value handed over by KEYWORD (the primitive wrapper only unboxes positional arguments)
+        "kw_clip_a_min": lambda xp, a: xp.sum(xp.clip(onp.array([0.5, -1.2, 2.0]), a_min=a[0], a_max=3.0)) * a[1],
+        "kw_clip_a": lambda xp, a: xp.sum(xp.clip(a=a * 0.3, a_min=-0.5, a_max=0.5) * a),
+        "kw_linspace_start": lambda xp, a: xp.sum(xp.linspace(start=a[0], stop=2.0, num=4) ** 2) * a[1],
+        "kw_full_fill_value": lambda xp, a: xp.sum(xp.full((2, 2), fill_value=a[0]) ** 2) * a[1],
+        "kw_full_like_fill_value": lambda xp, a: xp.sum(xp.full_like(onp.ones(3), fill_value=a[0]) ** 2) * a[1],
+        "kw_pad_constant_values": lambda xp, a: xp.sum(xp.pad(onp.ones(3), 1, constant_values=a[0]) ** 2) * a[1],
+        "kw_pad_array": lambda xp, a: xp.sum(xp.pad(array=a, pad_width=1) ** 2),
+        "kw_dot_b": lambda xp, a: xp.sum(xp.dot(onp.arange(6.0).reshape(2, 3), b=a * a)),
+        "kw_tensordot_b": lambda xp, a: xp.sum(xp.tensordot(onp.arange(6.0).reshape(2, 3), b=a * a, axes=1)),
+        "kw_outer_b": lambda xp, a: xp.sum(xp.outer(onp.array([1.0, 2.0]), b=a * a)),
+        "kw_append_values": lambda xp, a: xp.sum(xp.append(onp.ones(2), values=a) ** 2),
+        "kw_repeat_a": lambda xp, a: xp.sum(xp.repeat(a=a, repeats=2) ** 2),
+        "kw_trace_a": lambda xp, a: xp.trace(a=xp.outer(a, a)) * a[0],
+        "kw_diag_v": lambda xp, a: xp.sum(xp.diag(v=a) ** 2),
+        "kw_sum_initial": lambda xp, a: xp.sum(onp.ones(3), initial=a[0]) ** 2 * a[1],
+        "kw_sum_where": lambda xp, a: xp.sum(a * a, where=onp.array([True, False, True])),
+        "kw_mean_where": lambda xp, a: xp.mean(a * a, where=onp.array([True, False, True])),
+        "kw_std_a": lambda xp, a: xp.std(a=a * a),
+        "kw_sort_a": lambda xp, a: xp.sum(xp.sort(a=a) * onp.array([1.0, 2.0, 3.0])),
+        "kw_where_xy": lambda xp, a: xp.sum(xp.where(onp.array([True, False, True]), a, a * a)),
         "getattr_builtin_T": lambda xp, a: xp.sum(getattr(xp.outer(a, a), "T") * onp.arange(9.0).reshape(3, 3)),
         "round_builtin": lambda xp, a: round(a[0]) * a[1],
     }
